@@ -94,7 +94,7 @@ def prune_cache(keep=2):
         ds = [os.path.join(CACHE, x) for x in os.listdir(CACHE)]
     except OSError:
         return
-    ds = [d for d in ds if os.path.isdir(d)]
+    ds = [d for d in ds if os.path.isdir(d) and os.path.basename(d) != 'locale']
     ds.sort(key=lambda d: os.path.getmtime(d), reverse=True)
     cur = cache_dir()
     for d in ds[keep:]:
@@ -198,6 +198,40 @@ class TranslateResult(object):
         self.rc, self.out, self.err, self.files, self.dir = rc, out, err, files, workdir
 
 
+_locale = {}
+
+
+def comma_locale():
+    """LOCPATH of a minimal glibc locale 'xx_XX' whose decimal point is a comma (as in de_DE, fr_FR, ru_RU, ...), built once with
+    localedef from a hand-written ASCII charmap and locale source (no locale data is installed in the sandbox); None if it cannot
+    be built.  The user's locale is part of the environment a translator runs in; what it writes must not depend on it."""
+    if 'dir' in _locale:
+        return _locale['dir']
+    d = os.path.join(CACHE, 'locale')
+    ok = os.path.join(d, 'xx_XX', 'LC_NUMERIC')
+    if not os.path.exists(ok):
+        os.makedirs(d, exist_ok=True)
+        with _Lock(os.path.join(d, '.lock')):
+            if not os.path.exists(ok):
+                cm = ['<code_set_name> ANSI_X3.4-1968', '<comment_char> %', '<escape_char> /', '<mb_cur_min> 1', '<mb_cur_max> 1', 'CHARMAP']
+                cm += ['<U%04X> /x%02x CH%02X' % (c, c, c) for c in range(128)] + ['END CHARMAP', '']
+                open(os.path.join(d, 'ascii.cm'), 'w').write('\n'.join(cm))
+                cats = ['LC_IDENTIFICATION', 'LC_CTYPE', 'LC_COLLATE', 'LC_TIME', 'LC_NUMERIC', 'LC_MONETARY', 'LC_MESSAGES', 'LC_PAPER',
+                        'LC_NAME', 'LC_ADDRESS', 'LC_TELEPHONE', 'LC_MEASUREMENT']
+                src = ['comment_char %', 'escape_char /', '', 'LC_IDENTIFICATION', 'title "decimal comma test locale"'] + \
+                    ['%s ""' % k for k in ('source', 'address', 'contact', 'email', 'tel', 'fax', 'language', 'territory')] + \
+                    ['revision "1.0"', 'date "2026-01-01"'] + ['category "i18n:2012";%s' % c for c in cats] + \
+                    ['END LC_IDENTIFICATION', '', 'LC_NUMERIC', 'decimal_point ","', 'thousands_sep "."', 'grouping 3;3', 'END LC_NUMERIC', '']
+                open(os.path.join(d, 'comma.src'), 'w').write('\n'.join(src))
+                try:
+                    run(['localedef', '--no-archive', '-c', '-i', os.path.join(d, 'comma.src'), '-f', os.path.join(d, 'ascii.cm'),
+                         os.path.join(d, 'xx_XX')])
+                except OSError:
+                    pass
+    _locale['dir'] = d if os.path.exists(ok) else None
+    return _locale['dir']
+
+
 def translate(wasm_bytes, workdir, name='m', options=(), variant='plain', timeout=120, env=None):
     """run w2c2 on the module; returns TranslateResult (rc < 0 : signal)"""
     exe = w2c2_binary(variant)
@@ -206,6 +240,12 @@ def translate(wasm_bytes, workdir, name='m', options=(), variant='plain', timeou
         f.write(wasm_bytes)
     e = dict(os.environ)
     e.update(ASAN_ENV)
+    # a quarter of all translations (chosen by the module bytes, so that a case replays identically) run under a decimal-comma
+    # locale: the generated C must not depend on the environment of the translator
+    if hashlib.sha256(wasm_bytes).digest()[0] % 4 == 0:
+        loc = comma_locale()
+        if loc:
+            e.update({'LOCPATH': loc, 'LC_ALL': 'xx_XX', 'LANG': 'xx_XX'})
     if env:
         e.update(env)
     try:
